@@ -109,6 +109,21 @@ def scoping_programs(r):
     # parameter shadows an earlier binding; the outer binding is unchanged afterwards
     out.append(("param-shadows-earlier", [("let", a, I(n1)), ("let", "f", ("func", [a], ("bin", "+", S(a), I(1)))),
                                           ("let", "r", ("call", S("f"), [I(n2)])), ("let", "after", S(a))]))
+    # ... and the outer binding was READ by the statement just before the function is defined (or inside the same statement)
+    out.append(("param-shadows-binding-read-just-before", [("let", a, I(n1)), ("let", "c", ("bin", "*", S(a), I(2))), ("let", "f", ("func", [a], ("bin", "+", S(a), I(1)))),
+                                                           ("let", "r", ("call", S("f"), [I(n2)])), ("let", "after", S(a))]))
+    out.append(("param-shadows-binding-read-in-same-statement", [("let", a, I(n1)), ("let", "t", ("tuple", [("v", S(a)), ("f", ("func", [a], ("bin", "+", I(1), S(a))))])),
+                                                                 ("let", "r", ("call", ("sel", S("t"), ("f", "f")), [I(n2)])), ("let", "after", S(a))]))
+    out.append(("map-param-shadows-binding-read-just-before", [("let", a, I(n1)), ("let", "lim", S(a)), ("let", "r", ("map", ("func", [a], ("bin", "*", S(a), I(2))), ("list", [I(1), I(2), I(3)]))),
+                                                               ("let", "after", S(a))]))
+    out.append(("filter-param-shadows-binding-read-just-before", [("let", a, I(n1)), ("let", "lim", S(a)), ("let", "r", ("filter", ("func", [a], ("bin", ">", S(a), I(1))), ("list", [I(1), I(2), I(n2)]))),
+                                                                  ("let", "after", S(a))]))
+    out.append(("reduce-acc-shadows-binding-read-just-before", [("let", "acc", I(n2)), ("let", "start", S("acc")), ("let", "r", ("reduce", ("func", ["acc", p], ("bin", "+", S(p), S("acc"))), I(0), ("list", [I(1), I(2), I(3)]))),
+                                                                ("let", "after", S("acc"))]))
+    out.append(("item-read-just-before-format", [("let", "item", I(n1)), ("let", "y", S("item")), ("let", "s", ("fmt1", [("lit", "v="), ("e", S("item"))], I(n2))),
+                                                 ("let", "after", S("item"))]))
+    out.append(("nested-func-param-read-just-before", [("let", a, I(n1)), ("let", "f", ("func", [b], ("tuple", [("v", S(a)), ("g", ("func", [a], ("bin", "+", S(a), S(b))))]))),
+                                                       ("let", "o", ("call", S("f"), [I(n2)])), ("let", "r", ("call", ("sel", S("o"), ("f", "g")), [I(3)])), ("let", "after", S(a))]))
     # parameter named like a LATER binding
     out.append(("param-named-like-later", [("let", "f", ("func", [a], ("bin", "*", S(a), I(2)))), ("let", a, I(n1)),
                                            ("let", "r", ("call", S("f"), [I(n2)])), ("let", "after", S(a))]))
